@@ -380,7 +380,9 @@ fn gen_mmr_case(out: &mut Out, rng: &mut Rng, n_ops: usize, big: bool) {
     };
     // genesis, as store/src/db.rs init does: MMR::new(0), push, commit
     emit(&mut sim, out, "push 0".to_string());
-    let start = if big { rng.range(1, 70) } else { rng.range(0, 9) };
+    // every 50th case is a tall MMR (peaks up to height 10) so that long proof paths and deep reorgs occur
+    let tall = out.case % 50 == 7;
+    let start = if tall { rng.range(200, 1500) } else if big { rng.range(1, 70) } else { rng.range(0, 9) };
     if start > 0 {
         let ids = fresh_ids(rng, 1, start, 0);
         emit(&mut sim, out, format!("pushn {}", join(&ids, ",")));
